@@ -272,7 +272,8 @@ func (g *Gen) contractCall(in *ssa.Call, con *Contract, callee *ssa.Function, co
 		if n > 0 {
 			lab = fmt.Sprintf("%s/%d", lab, n)
 		}
-		g.addObl("pre", lab, implies(reach, s), pos, "precondition of "+short+": "+cl.Src, cl)
+		po := g.addObl("pre", lab, implies(reach, s), pos, "precondition of "+short+": "+cl.Src, cl)
+		g.lightGoal(po, cl.E, envPre, reach)
 	}
 	// havoc
 	mayAlloc := false
@@ -329,7 +330,7 @@ func (g *Gen) contractCall(in *ssa.Call, con *Contract, callee *ssa.Function, co
 		if !clauseActive(cl, g.fmode) {
 			continue
 		}
-		g.addFact(implies(reach, g.mustEval(cl, envPost)))
+		g.assumeClause(cl, envPost, reach)
 	}
 	if in != nil {
 		switch len(results) {
